@@ -34,12 +34,37 @@ ErrElem == [t |-> "err"]
 
 Pow2(n) == LET p[i \in 0..n] == IF i = 0 THEN 1 ELSE 2 * p[i-1] IN p[n]
 
-\* Compare two numbers: -1, 0, 1.  Scaled to a common exponent (small domain).
+\* A number is the dyadic s * m * 2^e; with the optional field d it is the double |d| steps of the
+\* double grid above (d > 0) or below (d < 0) the power of two 2^e (m = 1): NumD(1, 0, 1) = 1 + 2^-52,
+\* NumD(1, 0, -1) = 1 - 2^-53.  Such neighbours cannot be written with a mantissa TLC can hold.
+NumD(s, e, d) == [t |-> "num", s |-> s, m |-> 1, e |-> e, d |-> d]
+DOf(x) == IF "d" \in DOMAIN x THEN x.d ELSE 0
+
+RECURSIVE BitLen(_)
+BitLen(m) == IF m = 0 THEN 0 ELSE 1 + BitLen(m \div 2)
+\* Compare the magnitudes m * 2^e (grid offset ignored): by the position of the leading bit first, so
+\* that exponents far apart never need a big shift
+MagCmp(x, y) ==
+  IF x.m = 0 \/ y.m = 0 THEN (IF x.m = y.m THEN 0 ELSE IF x.m = 0 THEN -1 ELSE 1)
+  ELSE LET bx == BitLen(x.m) + x.e
+           by == BitLen(y.m) + y.e
+       IN IF bx # by THEN (IF bx < by THEN -1 ELSE 1)
+          ELSE LET emin == IF x.e < y.e THEN x.e ELSE y.e
+                   xv == x.m * Pow2(x.e - emin)
+                   yv == y.m * Pow2(y.e - emin)
+               IN IF xv < yv THEN -1 ELSE IF xv > yv THEN 1 ELSE 0
+
+\* Compare two numbers: -1, 0, 1.  (-0 = 0; a grid offset only decides between equal base values: an
+\* offset of a few steps never reaches another dyadic with a small mantissa)
 NumCmp(x, y) ==
-  LET emin == IF x.e < y.e THEN x.e ELSE y.e
-      xv == x.s * x.m * Pow2(x.e - emin)
-      yv == y.s * y.m * Pow2(y.e - emin)
-  IN IF xv < yv THEN -1 ELSE IF xv > yv THEN 1 ELSE 0
+  LET sx == IF x.m = 0 THEN 0 ELSE x.s
+      sy == IF y.m = 0 THEN 0 ELSE y.s
+  IN IF sx # sy THEN (IF sx < sy THEN -1 ELSE 1)
+     ELSE IF sx = 0 THEN 0
+     ELSE LET c == MagCmp(x, y)
+              dc == IF DOf(x) < DOf(y) THEN -1 ELSE IF DOf(x) > DOf(y) THEN 1 ELSE 0
+              mc == IF c # 0 THEN c ELSE dc
+          IN sx * mc
 
 \* Lexicographic comparison of code point sequences: -1, 0, 1.
 RECURSIVE SeqCmp(_, _)
